@@ -222,8 +222,39 @@ func seqRule(c *core.Ctx, t *c10type) {
 		c.Fail("C10-SEQ", key, pos, fmt.Sprintf("sequence field %s is written at header offset %d, expected %d", gv.chain, found, want))
 		return
 	}
+	// the header is written by THIS call on every successful return: a return of IEncode that does not hand out the
+	// writer's bytes (a cached image, a saved slice) must be an error return `return nil, err` - otherwise a sequence
+	// number set after an earlier encode is visible through the getter but not at the header offset (C10-28)
+	if t.Enc != nil && t.Enc.Decl != nil && t.Enc.Decl.Body != nil {
+		stale := ""
+		ast.Inspect(t.Enc.Decl.Body, func(n ast.Node) bool {
+			if _, isLit := n.(*ast.FuncLit); isLit {
+				return false
+			}
+			rs, ok := n.(*ast.ReturnStmt)
+			if !ok || stale != "" {
+				return true
+			}
+			for _, r := range t.Enc.Returns {
+				if r.Pos != rs.Pos() || r.Kind == "terminal" {
+					continue
+				}
+				if len(rs.Results) == 2 {
+					if tv, ok := t.Enc.Pkg.TypesInfo.Types[rs.Results[0]]; ok && tv.IsNil() {
+						continue
+					}
+				}
+				stale = fmt.Sprintf("%s: `return %s` hands out bytes that are not the image written by this call", c.Prog.Pos(rs.Pos()), r.Detail)
+			}
+			return true
+		})
+		if stale != "" {
+			c.Fail("C10-SEQ", key, pos, "a sequence number set after an earlier encode is not observable at the header offset: "+stale)
+			return
+		}
+	}
 	t.seqOff = found
-	c.OK("C10-SEQ", key, pos, fmt.Sprintf("setter and getter use %s, encoded at header offset %d", gv.chain, found))
+	c.OK("C10-SEQ", key, pos,fmt.Sprintf("setter and getter use %s, encoded at header offset %d", gv.chain, found))
 }
 
 func isResponseID(id uint64) bool { return id&0x80000000 != 0 }
